@@ -1,5 +1,6 @@
 (* C06 — every XFLATE stream is a plain DEFLATE stream with the same content.
    The DEFLATE decoder is Flate.Spec.inflate (RFC 1951 model). *)
+From V Require Import XFlate.RoundTripAll.
 From V Require Import XFlate.Reader XFlate.RoundTripStmt Flate.Depth Flate.Compose Meta.Deflate Meta.DeflateStream.
 From V Require Import Base.Prelude Base.Prog Base.ProgThms Meta.Model Flate.Spec Flate.Thms
   XFlate.Index XFlate.Writer XFlate.Thms XFlate.Witness.
@@ -57,3 +58,11 @@ Print Assumptions xflate_index_blocks_are_empty_nonfinal_deflate.
 Theorem xflate_footer_is_the_final_empty_deflate_block : meta_footer_chunk_stmt.
 Proof. exact meta_footer_chunk. Qed.
 Print Assumptions xflate_footer_is_the_final_empty_deflate_block.
+
+(* THE PROPERTY, for every history: under contract K1, whatever the Writer has handed to its
+   destination after a successful Close - any configuration, any Write / Flush schedule - is ONE
+   complete DEFLATE stream for the RFC 1951 model: it decodes to exactly the data written and is
+   consumed to its last byte (the only final bit is the footer's). No size bound. *)
+Theorem xflate_output_is_a_deflate_stream_with_the_same_content : xflate_is_deflate_stmt.
+Proof. exact xflate_is_deflate. Qed.
+Print Assumptions xflate_output_is_a_deflate_stream_with_the_same_content.
